@@ -1,6 +1,6 @@
 //go:build verif
 
-package verifdrv
+package c05shape
 
 import (
 	"fmt"
@@ -8,6 +8,8 @@ import (
 	"sort"
 	"strconv"
 	"time"
+
+	"github.com/gotid/god/internal/verifdrv"
 )
 
 // Shape describes a Go type as data (property C05); it is materialised with reflect (StructOf etc.).
@@ -117,7 +119,7 @@ func Dump(v reflect.Value) any {
 func RunInto(typ reflect.Type, f func(v any) error) map[string]any {
 	target := reflect.New(typ)
 	var err error
-	panicked, pv := Catch(func() { err = f(target.Interface()) })
+	panicked, pv := verifdrv.Catch(func() { err = f(target.Interface()) })
 	switch {
 	case panicked:
 		return map[string]any{"r": "panic", "msg": pv}
